@@ -3,6 +3,7 @@ package c17
 
 import (
 	"fmt"
+	"runtime"
 	"strconv"
 	"strings"
 	"sync"
@@ -16,8 +17,17 @@ import (
 const Rule = "cases = (implementation, n, op sequence) drawn from VERIF_SEED, every op sequence run on all three " +
 	"implementations (quickfind, quickunion, weighted) and their answers also compared with each other: " +
 	"n<=8 with dense unions, n up to 64 random, chains/stars/pairings that build the deepest and the widest trees, " +
-	"arguments from [-2, n+1] so invalid ones occur everywhere; oracle = breadth-first reachability over the valid " +
-	"union pairs; non-trivial = the history merged two classes that both had >= 2 elements, or repeated a union of two " +
+	"arguments from [-2, n+1] (and now and then +-2^31, +-2^32, MaxInt64, MinInt64) so invalid ones occur everywhere; " +
+	"a threshold family run on every check (fam=size): n = 63..66, 255..257, 1023..1025 on all three implementations with " +
+	"adversarial union orders (chain sweeps Union(i,i+1) forwards and backwards giving quick-union trees of depth n-1, " +
+	"Union(0,i), Union(n-1,i), star, pairing rounds, unions among the LAST elements, two deep trees joined), probed " +
+	"after k = 1, 2, 63..65, 255..257, 1023..1025, n-2, n-1 unions and at the end with Find/IsConnected/Count on the first, " +
+	"last, middle and threshold elements and on invalid ones; and (fam=big, header solo=1: one implementation per case, " +
+	"because a history that is linear for one is quadratic for another) n = 65535, 65536, 65537, 70001 with the chain " +
+	"sweeps and pairing rounds for quick-union / weighted and unions touching the last, first and middle elements for " +
+	"quick-find, some under GOMAXPROCS 3 and 7 (header procs=k); oracle = breadth-first reachability over the valid " +
+	"union pairs (for n > 64 cached as explicit class lists that are re-validated by a full breadth-first labelling at " +
+	"every Count and at the end of the case); non-trivial = the history merged two classes that both had >= 2 elements, or repeated a union of two " +
 	"distinct already connected elements, or passed an invalid argument after at least one merge; " +
 	"distinct = distinct (header, op list)"
 
@@ -35,22 +45,54 @@ func newUF(comp string, n int) unionfind.UnionFind {
 	return nil
 }
 
-// oracle: nothing but the list of valid union pairs, queried by breadth-first search.
+// oracle: the list of valid union pairs. Small cases (n <= bfsEvery) answer every question by a breadth-first search
+// over the pairs, as the property is worded. For the large sizes that would make a case quadratic, so the oracle also
+// keeps the classes as explicit member lists (a union moves the shorter list into the longer one) and answers from
+// those; the lists are compared with a full breadth-first labelling over the pairs at every Count and at the end of
+// the case (check), so they are a cache of the reachability relation, never a second opinion.
 type oracle struct {
-	n   int
-	adj [][]int
+	n     int
+	adj   [][]int
+	label []int   // label[x]: the class x is in
+	mem   [][]int // mem[l]: the members of class l (nil once merged into another)
+	k     int     // number of classes
+}
+
+const bfsEvery = 64
+
+func newOracle(n int) *oracle {
+	o := &oracle{n: n, adj: make([][]int, n), label: make([]int, n), mem: make([][]int, n), k: n}
+	for i := 0; i < n; i++ {
+		o.label[i] = i
+		o.mem[i] = []int{i}
+	}
+	return o
 }
 
 func (o *oracle) valid(p int) bool { return 0 <= p && p < o.n }
 
 func (o *oracle) add(p, q int) {
-	if o.valid(p) && o.valid(q) {
-		o.adj[p] = append(o.adj[p], q)
-		o.adj[q] = append(o.adj[q], p)
+	if !o.valid(p) || !o.valid(q) {
+		return
 	}
+	o.adj[p] = append(o.adj[p], q)
+	o.adj[q] = append(o.adj[q], p)
+	a, b := o.label[p], o.label[q]
+	if a == b {
+		return
+	}
+	if len(o.mem[a]) < len(o.mem[b]) {
+		a, b = b, a
+	}
+	for _, x := range o.mem[b] {
+		o.label[x] = a
+	}
+	o.mem[a] = append(o.mem[a], o.mem[b]...)
+	o.mem[b] = nil
+	o.k--
 }
 
-// class returns the set of elements reachable from p (p valid).
+// class returns the set of elements reachable from p (p valid), by breadth-first search over the union pairs.
 func (o *oracle) class(p int) []bool {
 	seen := make([]bool, o.n)
 	seen[p] = true
@@ -68,24 +110,59 @@ func (o *oracle) class(p int) []bool {
 	return seen
 }
 
-func (o *oracle) connected(p, q int) bool {
-	return o.valid(p) && o.valid(q) && o.class(p)[q]
+// same: are p and q (both valid) linked by a chain of unions?
+func (o *oracle) same(p, q int) bool {
+	if o.n <= bfsEvery {
+		return o.class(p)[q]
+	}
+	return o.label[p] == o.label[q]
 }
 
-func (o *oracle) classes() int {
+func (o *oracle) connected(p, q int) bool {
+	return o.valid(p) && o.valid(q) && o.same(p, q)
+}
+
+func (o *oracle) classSize(p int) int {
+	if o.n <= bfsEvery {
+		return size(o.class(p))
+	}
+	return len(o.mem[o.label[p]])
+}
+
+// classes counts the classes by breadth-first search (linear in n + number of pairs) and, on the way, checks the
+// member lists against it; what != "" reports a disagreement inside the oracle itself.
+func (o *oracle) classes() (k int, what string) {
 	done := make([]bool, o.n)
-	k := 0
 	for i := 0; i < o.n; i++ {
-		if !done[i] {
-			k++
-			for j, b := range o.class(i) {
-				if b {
-					done[j] = true
+		if done[i] {
+			continue
+		}
+		k++
+		cnt := 0
+		done[i] = true
+		queue := []int{i}
+		for len(queue) > 0 {
+			x := queue[0]
+			queue = queue[1:]
+			cnt++
+			if o.label[x] != o.label[i] {
+				what = fmt.Sprintf("oracle: %d and %d are linked by unions but carry different labels", i, x)
+			}
+			for _, y := range o.adj[x] {
+				if !done[y] {
+					done[y] = true
+					queue = append(queue, y)
 				}
 			}
 		}
+		if cnt != len(o.mem[o.label[i]]) {
+			what = fmt.Sprintf("oracle: the class of %d has %d members by search and %d in the list", i, cnt, len(o.mem[o.label[i]]))
+		}
 	}
-	return k
+	if k != o.k {
+		what = fmt.Sprintf("oracle: %d classes by search, %d by the lists", k, o.k)
+	}
+	return k, what
 }
 
 func size(set []bool) int {
@@ -144,13 +221,29 @@ func execCase(c hx.Case, res *hx.Result, mu *sync.Mutex) {
 	}
 	var others []unionfind.UnionFind
 	var otherNames []string
+	// solo=1 (large n): the header's implementation alone; the histories of that family are linear for one
+	// implementation and quadratic for another (a chain of n unions costs quick-find n*n steps)
+	solo := hx.HeaderGet(c.Header, "solo") == "1"
+	if fam := hx.HeaderGet(c.Header, "fam"); fam != "" {
+		tags["fam="+fam] = true
+	}
+	for _, t := range []int{64, 256, 1024, 65536} {
+		if n > t {
+			tags["n>"+strconv.Itoa(t)] = true
+		}
+	}
+	// procs=k: the case runs with GOMAXPROCS(k) (the answers of a sequential API must not depend on it)
+	if k, err := strconv.Atoi(hx.HeaderGet(c.Header, "procs")); err == nil && k >= 1 {
+		defer runtime.GOMAXPROCS(runtime.GOMAXPROCS(k))
+		tags["procs-set"] = true
+	}
 	for _, k := range comps {
-		if k != comp {
+		if k != comp && !solo {
 			others = append(others, newUF(k, n))
 			otherNames = append(otherNames, k)
 		}
 	}
-	o := &oracle{n: n, adj: make([][]int, n)}
+	o := newOracle(n)
 	merges := 0
 	nontrivial := false
 
@@ -182,14 +275,13 @@ func execCase(c hx.Case, res *hx.Result, mu *sync.Mutex) {
 				} else if p == q {
 					tags["union-self"] = true
 				} else {
-					cp := o.class(p)
-					if cp[q] {
+					if o.same(p, q) {
 						tags["union-redundant"] = true
 						nontrivial = true
 					} else {
 						tags["union-merge"] = true
 						merges++
-						if size(cp) >= 2 && size(o.class(q)) >= 2 {
+						if o.classSize(p) >= 2 && o.classSize(q) >= 2 {
 							tags["union-merge-two-trees"] = true
 							nontrivial = true
 						}
@@ -214,19 +306,25 @@ func execCase(c hx.Case, res *hx.Result, mu *sync.Mutex) {
 					bad(i, "find %d returned (%d,%v): not a valid representative", p, r, ok)
 					break
 				}
-				cls := o.class(p)
-				if !cls[r] {
+				if !o.same(p, r) {
 					bad(i, "find %d returned %d, which no chain of unions links to %d", p, r, p)
+				}
+				if r != p {
+					tags["find-non-root"] = true
 				}
 				// same representative iff connected, against every element
 				step := 1
 				if n > 64 { // long chains: a sample keeps the case linear
 					step = n / 16
 				}
+				sample := []int{0, n - 1, n / 2} // first, last, middle, then a regular sample
 				for x := 0; x < n; x += step {
+					sample = append(sample, x)
+				}
+				for _, x := range sample {
 					rx, okx := u.Find(x)
-					if !okx || (rx == r) != cls[x] {
-						bad(i, "find %d = %d and find %d = (%d,%v), but reachable(%d,%d) = %v", p, r, x, rx, okx, p, x, cls[x])
+					if want := o.same(p, x); !okx || (rx == r) != want {
+						bad(i, "find %d = %d and find %d = (%d,%v), but reachable(%d,%d) = %v", p, r, x, rx, okx, p, x, want)
 						break
 					}
 				}
@@ -260,7 +358,11 @@ func execCase(c hx.Case, res *hx.Result, mu *sync.Mutex) {
 			case f[0] == "count" && len(f) == 1:
 				got := u.Count()
 				out = "ok " + strconv.Itoa(got)
-				if want := o.classes(); got != want {
+				want, inner := o.classes()
+				if inner != "" {
+					bad(i, "%s", inner)
+				}
+				if got != want {
 					bad(i, "count = %d, the union pairs leave %d classes", got, want)
 				}
 				if got != n-merges {
@@ -286,6 +388,9 @@ func execCase(c hx.Case, res *hx.Result, mu *sync.Mutex) {
 		res.Outs = append(res.Outs, out)
 		mu.Unlock()
 	}
+	if _, inner := o.classes(); inner != "" {
+		bad(len(c.Ops)-1, "%s", inner)
+	}
 	if merges > 0 {
 		tags["merged"] = true
 	}
@@ -307,8 +412,14 @@ func arg(r *hx.Rand, n, validPct int) int {
 	if n > 0 && r.Intn(100) < validPct {
 		return r.Intn(n)
 	}
+	if r.Chance(1, 12) {
+		return hx.Pick(r, extremeArgs)
+	}
 	return r.Range(-2, n+1)
 }
+
+// arguments that are invalid for every n the harness uses, at the magnitudes where a conversion would wrap
+var extremeArgs = []int{1 << 31, -(1 << 31), 1 << 32, 1<<32 + 1, -(1 << 32), 1<<63 - 1, -1 << 63}
 
 func queryOp(r *hx.Rand, n, validPct int) string {
 	switch x := r.Intn(100); {
@@ -414,6 +525,224 @@ func genShape(r *hx.Rand, n int, shape string) []string {
 	return sweep(ops, n)
 }
 
+// ---------------------------------------------------------------- threshold family (size dimension)
+
+var sizeMarks = []int{1, 2, 63, 64, 65, 255, 256, 257, 1023, 1024, 1025, 65535, 65536, 65537}
+
+// elems: the elements worth asking about for a structure of n elements — first, last, middle, the ones next to a
+// threshold, and invalid ones of every magnitude.
+func elems(n int) []int {
+	cand := []int{-1, 0, 1, 2, n / 2, n - 3, n - 2, n - 1, n, n + 1}
+	for _, t := range sizeMarks {
+		if t >= 63 {
+			cand = append(cand, t)
+		}
+	}
+	cand = append(cand, extremeArgs...)
+	seen := map[int]bool{}
+	var out []int
+	for _, x := range cand {
+		if x > n+1 && x < 1<<31 { // a threshold above this n: just another invalid argument
+			continue
+		}
+		if !seen[x] {
+			seen[x] = true
+			out = append(out, x)
+		}
+	}
+	return out
+}
+
+// battery: count, find of every element of elems(n), connected over pairs of them (light: only pairs with the
+// first and the last element and neighbours).
+func battery(ops []string, n int, light bool) []string {
+	ops = append(ops, "count")
+	es := elems(n)
+	if light {
+		es = []int{-1, 0, 1, n / 2, n - 2, n - 1, n}
+	}
+	for _, p := range es {
+		ops = append(ops, fmt.Sprintf("find %d", p))
+	}
+	for i, p := range es {
+		ops = append(ops, fmt.Sprintf("connected 0 %d", p), fmt.Sprintf("connected %d %d", p, n-1))
+		if i+1 < len(es) {
+			ops = append(ops, fmt.Sprintf("connected %d %d", p, es[i+1]))
+		}
+	}
+	ops = append(ops, fmt.Sprintf("connected %d %d", n-1, n-1), "connected 0 0")
+	return ops
+}
+
+// orderOf lists the unions of an adversarial order over n elements.
+func orderOf(order string, n int) [][2]int {
+	var us [][2]int
+	u := func(p, q int) { us = append(us, [2]int{p, q}) }
+	switch order {
+	case "sweep-up": // quick-union: 0 -> 1 -> ... -> n-1, depth n-1, each union in constant time
+		for i := 0; i+1 < n; i++ {
+			u(i, i+1)
+		}
+	case "sweep-down": // n-1 -> n-2 -> ... -> 0
+		for i := n - 1; i > 0; i-- {
+			u(i, i-1)
+		}
+	case "sweep-up-swapped": // Union(i+1, i): every new element goes below the old root
+		for i := 0; i+1 < n; i++ {
+			u(i+1, i)
+		}
+	case "from-first": // Union(0, i): Find(0) walks the whole chain before every link
+		for i := 1; i < n; i++ {
+			u(0, i)
+		}
+	case "from-last": // Union(n-1, i)
+		for i := 0; i+1 < n; i++ {
+			u(n-1, i)
+		}
+	case "star": // Union(i, 0)
+		for i := 1; i < n; i++ {
+			u(i, 0)
+		}
+	case "star-last": // Union(i, n-1)
+		for i := n - 2; i >= 0; i-- {
+			u(i, n-1)
+		}
+	case "pairing": // rounds of equal-size merges (the deepest weighted trees)
+		for step := 1; step < n; step *= 2 {
+			for i := 0; i+step < n; i += 2 * step {
+				u(i, i+step)
+			}
+		}
+	case "pairing-from-last": // the same, counted from the last element downwards
+		for step := 1; step < n; step *= 2 {
+			for i := n - 1; i-step >= 0; i -= 2 * step {
+				u(i, i-step)
+			}
+		}
+	case "last-elements": // only the last few elements, the first one and the middle one take part
+		k := n - 1
+		u(k, 0)
+		u(k-1, k)
+		u(n/2, k-2)
+		u(k-2, k-1)
+		u(k-3, n/2+1)
+		u(0, k-3)
+		u(k, k-4)
+		u(1, k)
+	case "two-deep-trees": // two chains, joined at their far ends, then everything again
+		h := n / 2
+		for i := 0; i+1 < h; i++ {
+			u(i, i+1)
+		}
+		for i := n - 1; i > h; i-- {
+			u(i, i-1)
+		}
+		u(0, n-1)
+		u(n-1, 0)
+		u(h-1, h)
+	}
+	return us
+}
+
+// sizeCase: the unions of an order, probed after k unions for every k next to a threshold, then the full battery,
+// then every union once more (all redundant now or merging what is left) and the battery again.
+func sizeCase(order string, n int, big bool) []string {
+	marks := map[int]bool{}
+	for _, t := range sizeMarks {
+		marks[t] = true
+	}
+	us := orderOf(order, n)
+	marks[len(us)-1] = true
+	var ops []string
+	for k, pq := range us {
+		ops = append(ops, fmt.Sprintf("union %d %d", pq[0], pq[1]))
+		if marks[k+1] {
+			// what was just linked, the two ends, and an element the unions have not reached yet
+			p, q := pq[0], pq[1]
+			ops = append(ops, "count", fmt.Sprintf("find %d", p), fmt.Sprintf("find %d", q), "find 0", fmt.Sprintf("find %d", n-1),
+				fmt.Sprintf("connected %d %d", p, q), fmt.Sprintf("connected 0 %d", n-1), fmt.Sprintf("connected %d %d", us[0][0], q),
+				fmt.Sprintf("connected %d %d", us[0][0], us[len(us)-1][1]))
+		}
+	}
+	if !big {
+		ops = append(ops, "dump")
+	}
+	ops = battery(ops, n, false)
+	// invalid arguments must change nothing
+	ops = append(ops, fmt.Sprintf("union %d 0", n), fmt.Sprintf("union 0 %d", n), "union -1 0", fmt.Sprintf("union %d %d", n-1, 1<<32),
+		fmt.Sprintf("union %d 0", -1<<63), fmt.Sprintf("union %d %d", n-1, n-1))
+	redo := us
+	if big && len(redo) > 40 {
+		redo = append(append([][2]int{}, us[:20]...), us[len(us)-20:]...)
+	}
+	for _, pq := range redo {
+		ops = append(ops, fmt.Sprintf("union %d %d", pq[1], pq[0]))
+	}
+	return battery(ops, n, big)
+}
+
+var sizeOrders = []string{"sweep-up", "sweep-down", "sweep-up-swapped", "from-first", "from-last", "star", "star-last",
+	"pairing", "pairing-from-last", "last-elements", "two-deep-trees"}
+
+// sizeFamily is deterministic (no PRNG draw): it runs the same on every check.
+func sizeFamily(run *hx.Run) {
+	// all three implementations on the same history (and compared with each other)
+	for _, n := range []int{63, 64, 65, 66} {
+		for _, order := range sizeOrders {
+			all3fam(run, n, sizeCase(order, n, false), "size")
+		}
+	}
+	mid := map[int][]string{
+		255: {"sweep-down", "pairing"}, 256: {"sweep-up", "pairing-from-last", "last-elements"}, 257: {"from-last", "star-last", "two-deep-trees"},
+		1023: {"sweep-up-swapped", "pairing-from-last"}, 1024: {"sweep-down", "pairing", "last-elements"}, 1025: {"sweep-up", "from-first", "two-deep-trees"},
+	}
+	for _, n := range []int{255, 256, 257, 1023, 1024, 1025} {
+		orders := mid[n]
+		if run.Thorough() {
+			orders = sizeOrders
+		}
+		for _, order := range orders {
+			all3fam(run, n, sizeCase(order, n, false), "size")
+		}
+	}
+	if run.Thorough() {
+		for _, n := range []int{127, 128, 129, 511, 512, 513, 2047, 2048, 2049, 4097} {
+			for _, order := range []string{"sweep-up", "sweep-down", "pairing", "last-elements", "two-deep-trees"} {
+				all3fam(run, n, sizeCase(order, n, false), "size")
+			}
+		}
+	}
+	// large n, one implementation per case. quick-find: a union costs n steps, so only a few of them, among the
+	// last, first and middle elements; quick-union and weighted: the sweeps (constant time per union) and pairings.
+	solo := func(comp string, n int, order string, procs int) {
+		hdr := fmt.Sprintf("comp=%s n=%d fam=big solo=1", comp, n)
+		if procs > 0 {
+			hdr += fmt.Sprintf(" procs=%d", procs)
+		}
+		run.Do(comp, hx.Case{Header: hdr, Ops: sizeCase(order, n, true)}, Exec)
+	}
+	for i, n := range []int{65535, 65536, 65537, 70001} {
+		solo("quickfind", n, "last-elements", 0)
+		solo("quickfind", n, "last-elements", []int{3, 7, 2, 5}[i])
+		solo("quickunion", n, []string{"sweep-up", "sweep-down", "sweep-up-swapped", "sweep-up"}[i], 0)
+		solo("weighted", n, []string{"pairing", "pairing-from-last", "sweep-up", "star-last"}[i], 0)
+		if run.Thorough() {
+			solo("quickunion", n, "two-deep-trees", 0)
+			solo("quickunion", n, "pairing-from-last", 3)
+			solo("weighted", n, "sweep-down", 0)
+			solo("weighted", n, "two-deep-trees", 7)
+			solo("quickfind", n, "last-elements", 16)
+		}
+	}
+}
+
+// all3fam: all3 with a family name in the header.
+func all3fam(run *hx.Run, n int, ops []string, fam string) {
+	for _, comp := range comps {
+		run.Do(comp, hx.Case{Header: fmt.Sprintf("comp=%s n=%d fam=%s", comp, n, fam), Ops: ops}, Exec)
+	}
+}
+
 var shapes = []string{"chain-up", "chain-down", "chain-adjacent", "chain-adjacent-rev", "star", "pairing", "two-halves"}
 
 // all3 runs one op list on the three implementations.
@@ -515,6 +844,10 @@ func Main(run *hx.Run) {
 		}
 		all3(run, n, genShape(r, n, hx.Pick(r, shapes)))
 	}
+
+	// the threshold family comes after the short random histories: a change that breaks everyday behaviour is then
+	// reported (and shrunk) on a short history, and the long ones only speak up for what needs their size
+	sizeFamily(run)
 
 	if run.Thorough() {
 		// every sequence of <= 5 unions, followed by the queries that expose the whole state
